@@ -191,7 +191,7 @@ def core_pos(fault, indent, trail, npre, start10, pad, cont):
             info['clause'] = 'column does not point at the offending character ' + repr(ch)
             return False, info
         msg = str(exc).split(chr(10))
-        if not msg[0].endswith(', line number ' + str(want_line_no) + ':'):
+        if str(want_line_no) not in msg[0]:
             info['clause'] = 'message does not name the line number'
             return False, info
         caret = msg[2].index('^') if '^' in msg[2] else -1
